@@ -2,7 +2,7 @@
 """Copy a confirmed seeded change into /verif/seeded/<name>/ with meta.json. usage: save_seed.py <Cxx> <name> "<needs>" """
 import sys, os, json, shutil
 pid, name, needs = sys.argv[1], sys.argv[2], sys.argv[3]
-sd = "/tmp/seed/%s/seed" % pid
+sd = "%s/%s/seed" % (os.environ.get("SEED_BASE", "/tmp/seed"), pid)
 dst = "/verif/seeded/%s" % name
 os.makedirs(dst, exist_ok=True)
 for f in ("patch.diff", "demo.diff", "README.md"):
@@ -10,7 +10,7 @@ for f in ("patch.diff", "demo.diff", "README.md"):
 ev = json.load(open(os.path.join(sd, "eval.json")))
 meta = {
     "property": pid,
-    "origin": "independent sub-agent given only the property text and a scratch worktree of /repo at the fixed HEAD",
+    "origin": os.environ.get("SEED_ORIGIN", "independent sub-agent given only the property text and a scratch worktree of /repo at the fixed HEAD"),
     "needs_to_manifest": needs,
     "confirmed_by_me": {
         "suite_with_patch": ev["suite_with_patch"],
